@@ -323,6 +323,9 @@ func reqMat(r *Rng, n int) IMat {
 	m := IMat{Size: n}
 	for i := 0; i < n; i++ {
 		mode := r.Intn(6)
+		if r.Chance(6) {
+			mode = 6 // a row whose weights (and their sum) lie below 2^-1022: 1/sum is not representable
+		}
 		for j := 0; j < n; j++ {
 			if !r.Chance(45) {
 				continue
@@ -341,6 +344,8 @@ func reqMat(r *Rng, n int) IMat {
 				if r.Chance(30) {
 					v = 0
 				}
+			case 6:
+				v = []float64{5e-324, 1.5e-323, 1e-320, 3e-315, 1e-310}[r.Intn(5)]
 			}
 			m.Es = append(m.Es, Coo{R: i, C: j, V: JFloat(v)})
 		}
@@ -355,9 +360,14 @@ func reqMat(r *Rng, n int) IMat {
 }
 func reqVec(r *Rng, n int) IVec {
 	v := IVec{Size: n}
+	tiny := r.Chance(5) // a vector whose sum lies below 2^-1022
 	for i := 0; i < n; i++ {
 		if r.Chance(60) {
-			v.Es = append(v.Es, Ent{I: i, V: JFloat(r.Pos())})
+			x := r.Pos()
+			if tiny {
+				x = []float64{5e-324, 1.5e-323, 1e-320, 3e-315, 1e-310}[r.Intn(5)]
+			}
+			v.Es = append(v.Es, Ent{I: i, V: JFloat(x)})
 		}
 	}
 	if r.Bool() { // clients need not list the entries in index order
@@ -457,13 +467,17 @@ func genC03(r *Rng, tier string) []*Case {
 				q.Eps = &e
 			}
 			if pat&16 != 0 {
-				switch r.Intn(4) {
+				switch r.Intn(6) {
 				case 0:
 					q.Max = ip(r.Intn(15))
 				case 1:
 					q.Freq, q.Min = ip(1+r.Intn(3)), ip(1+r.Intn(5))
 				case 2:
 					q.FT, q.NL = ip(r.Intn(3)), ip(r.Intn(n+2))
+				case 3: // numLeaders without flatTail (the ranking of the statistics still follows it)
+					q.NL = ip(1 + r.Intn(n+1))
+				case 4: // flatTail without numLeaders
+					q.FT = ip(1 + r.Intn(3))
 				default:
 					q.Max, q.Min = ip(3+r.Intn(5)), ip(1+r.Intn(3))
 				}
